@@ -55,7 +55,6 @@ DO == INSTANCE DiffOps WITH c <- c, MaxN1 <- 5, MaxN2 <- 2, Emit <- FALSE
 \* pattern k of lattice L in dimension d: k <= Len(L) constant vectors, beyond that cyclic walks through L
 Pat(L, d, k) == F([i \in 1..d |-> IF k <= Len(L) THEN L[k] ELSE L[((i + k - Len(L) - 2) % Len(L)) + 1]])
 NPat(L, d)   == IF d = 1 THEN Len(L) ELSE Len(L) + (IF Thorough THEN 2 ELSE 1)
-NPatQ(L, d, nq) == IF Thorough THEN NPat(L, d) ELSE IF d = 1 THEN nq ELSE nq + 1    \* quick tier: nq constants + one walk
 PatIdx(L, d, nq) == IF Thorough THEN 1..NPat(L, d)
                     ELSE (1..nq) \cup (IF d = 1 THEN {} ELSE {Len(L) + 1})
 IsConstV(v)  == \A i \in 1..Len(v) : v[i] = v[1]
@@ -91,6 +90,11 @@ PDet(A, r) == IF r = 0 THEN One
                    IN RSumSeq([i \in 1..Len(subs) |-> Det(SubMat(A, AscSeq(subs[i])))])
 
 Quad(P, v)   == Dot(v, MV(P, v))
+\* balanced sum of a rational sequence (long vectors: recursion depth log n)
+RECURSIVE RSumR(_, _, _)
+RSumR(s, lo, hi) == IF lo > hi THEN Zero ELSE IF lo = hi THEN s[lo]
+                    ELSE LET mid == (lo + hi) \div 2 IN RAdd(RSumR(s, lo, mid), RSumR(s, mid + 1, hi))
+RSumB(seq)   == LET s == F(seq) IN RSumR(s, 1, Len(s))
 NegInf       == [neginf |-> TRUE,  v |-> SLZero]
 Fin(s)       == [neginf |-> FALSE, v |-> s]
 NoGradV      == [nan |-> FALSE, v |-> <<>>]
@@ -258,8 +262,10 @@ MHNGrad(a, b, g, x) ==
 \* Markov random fields on the operators of DiffOps
 \* ---------------------------------------------------------------------------
 MrfDim(pd, n) == IF pd = 1 THEN n ELSE n * n
-MrfD(pd, n, bc, ord, wm) ==                       \* integer difference operator; order 0 = identity
-    IF ord = 0 THEN DO!IId(MrfDim(pd, n))
+\* integer difference operator; order 0 = the operator `none` of DiffOps (identity in 1-D; in 2-D the identity stacked once per
+\* direction, "differences are defined in both horizontal and vertical directions", i.e. precision 2 delta I - as in C20)
+MrfD(pd, n, bc, ord, wm) ==
+    IF ord = 0 THEN DO!DOp([pd |-> pd, n |-> n, bc |-> "none", order |-> 1, wm |-> 1])
     ELSE DO!DOp([pd |-> pd, n |-> n, bc |-> bc, order |-> ord, wm |-> wm])
 MrfNullity(pd, n, bc, ord, wm) ==
     IF ord = 0 THEN 0 ELSE Len(DO!NullBasis([pd |-> pd, n |-> n, bc |-> bc, order |-> ord, wm |-> wm]))
@@ -301,31 +307,10 @@ CfgM(fam, pd, n, a, b, x, bc, ord, wm) ==
     [fam |-> fam, dim |-> n, a |-> a, b |-> b, g |-> 1, x |-> x, o |-> 0, bc |-> bc, ord |-> ord, wm |-> wm, pd |-> pd]
 
 Dims == 1..MaxDim
-IX == 1..8                               \* generous index range; ValidIdx keeps the patterns of the tier
 NQ == IF Thorough THEN 4 ELSE 2          \* number of constant patterns used by the quick tier
 
 PI(L, d) == PatIdx(L, d, NQ)
 NB == IF Thorough THEN 3 ELSE 2
-FamConfigs(fam) ==
-    CASE fam = "Normal" -> UNION {{ Cfg(fam, d, a, b, 1, x, 0) : a \in PI(LLoc, d), b \in PI(LStd, d), x \in PI(LOff, d) } : d \in Dims}
-      [] fam = "Laplace" -> UNION {{ Cfg(fam, d, a, b, 1, x, 0) : a \in PI(LLoc, d), b \in 1..(NB + 1), x \in PI(LOff, d) } : d \in Dims}
-      [] fam = "SmoothedLaplace" -> UNION {{ Cfg(fam, d, a, b, g, x, 0) : a \in PI(LLoc, d), b \in PI(LStd, d), g \in 1..2, x \in PI(LSL1, d) } : d \in Dims}
-      [] fam = "Cauchy" -> UNION {{ Cfg(fam, d, a, b, 1, x, 0) : a \in PI(LLoc, d), b \in PI(LStd, d),
-                                     x \in PatIdx(LCauU, d, IF Thorough THEN 6 ELSE 3) } : d \in Dims}
-      [] fam = "Gamma" -> UNION {{ Cfg(fam, d, a, b, 1, x, o) : a \in PI(LShape, d), b \in PI(LRate, d), x \in PI(LPosX, d), o \in 0..1 } : d \in Dims}
-      [] fam = "InverseGamma" -> UNION {{ Cfg(fam, d, a, b, g, x, o) : a \in PI(LShape, d), b \in PI(LLoc, d), g \in PI(LRate, d),
-                                           x \in PI(LPosX, d), o \in 0..1 } : d \in Dims}
-      [] fam = "Beta" -> UNION {{ Cfg(fam, d, a, b, 1, x, o) : a \in PI(LShape, d), b \in PI(LShape, d), x \in PI(LUnit, d), o \in 0..2 } : d \in Dims}
-      [] fam = "Uniform" -> UNION {{ Cfg(fam, d, a, b, 1, x, o) : a \in PI(LLoc, d), b \in PI(LStd, d), x \in PI(LUnit, d), o \in 0..2 } : d \in Dims}
-      [] fam = "ModifiedHalfNormal" -> { Cfg(fam, 1, a, b, g, x, o) : a \in 1..3, b \in 1..3, g \in 1..4, x \in 1..3, o \in 0..1 }
-      [] fam = "Lognormal" -> UNION {{ Cfg(fam, d, a, b, g, x, o) : a \in PI(LMu, d), b \in 1..NUT(d), g \in PI(LLam, d), x \in PI(LK, d), o \in 0..1 } : d \in Dims}
-      [] fam = "Gaussian" -> UNION {{ Cfg(fam, d, a, b, g, x, 0) : a \in PI(LLoc, d), b \in 1..NUT(d), g \in PI(LLam, d), x \in PI(LOff, d) } : d \in Dims}
-      [] fam = "GaussianBig" -> { Cfg(fam, d, a, 1, g, x, 0) : d \in {75, 76}, a \in {2, 4}, g \in {2, 4}, x \in {1, 5} }
-      [] OTHER -> UNION {{ CfgM(fam, pd, n, a, b, x, bc, ord, wm) :
-                             a \in PI(LLoc, MrfDim(pd, n)), b \in 1..NB, x \in PI(LInt, MrfDim(pd, n)),
-                             bc \in {"zero", "periodic", "neumann"}, ord \in (IF fam = "GMRF" THEN 0..2 ELSE {1}), wm \in {1, 2} }
-                         : pd \in {1, 2}, n \in 2..(IF Thorough THEN 5 ELSE 4)}
-Configs == UNION {FamConfigs(f) : f \in Fams}
 
 MrfN(k)  == MrfDim(k.pd, k.dim)
 ValidIdx(k) ==
@@ -461,7 +446,7 @@ BigCase(k) ==
         dev == VSub(x, m)
         logdet == SLScale(R(-2), SLSum([i \in 1..d |-> SLLog(lam[i])]))
         lp == SLAdd(SLScale(Q(-1, 2), SLAdd(SLScale(R(d), SLLog2Pi), logdet)),
-                    SLConst(RMul(Q(-1, 2), Dot(dev, VMulE(pr, dev)))))
+                    SLConst(RMul(Q(-1, 2), RSumB(VMulE(dev, VMulE(pr, dev))))))
     IN [kind |-> "gaussbig", fam |-> "GaussianBig", dim |-> d, mean |-> m, meanscal |-> IsConstV(m), x |-> x,
         lamconst |-> IsConstV(lam), logpdf |-> Fin(lp), grad |-> FinGrad(VScale(R(-1), VMulE(pr, dev))),
         inputs |-> [i \in 1..4 |-> [form |-> Forms[i], vec |-> BigVec(Forms[i], lam)]], cfg |-> k]
@@ -499,6 +484,89 @@ MrfCase(k) ==
                    Fin(CmrfLogpdf(mp.D, par, loc, x)), FinGrad(CmrfGrad(mp.D, par, loc, x)), TRUE, NoCdf)
               @@ [mrf |-> mrf]
 
+\* ---------------------------------------------------------------------------
+\* likelihoods and posteriors: sum rule and chain rule  J(x)^T prec (data - F(x))
+\* ---------------------------------------------------------------------------
+\* forward models with small integer Jacobians
+LA(n, a) == CASE n = 1 -> <<<<2>>, <<-1>>>>
+              [] n = 2 -> (IF a = 1 THEN <<<<2, 1>>, <<0, -1>>>> ELSE <<<<1, 0>>, <<2, -1>>, <<0, 3>>>>)
+              [] OTHER -> (IF a = 1 THEN <<<<1, 2, 0>>, <<-1, 0, 3>>>> ELSE <<<<0, 1, -1>>, <<2, 0, 1>>, <<1, 1, 0>>>>)
+NLA(n)   == IF n = 1 THEN 1 ELSE 2
+LB(A)    == [i \in 1..Len(A) |-> [j \in 1..Len(A[1]) |-> ((i + 2 * j) % 3) - 1]]
+MKinds   == <<"matrix", "funadj", "jacobian", "gradient", "geomgrad">>
+\*   matrix / funadj   : F(x) = A x                         (LinearModel from a matrix / forward+adjoint callables)
+\*   jacobian / gradient: F(x) = A (x.x) + B x              (Model with jacobian= / gradient= callable)
+\*   geomgrad          : F(p) = A (p.p)  = matrix model A on a domain geometry with par2fun(p) = p.p that supplies
+\*                       its own derivative  gradient(direction, p) = 2 p . direction
+ModelF(mk, A, B, x) ==
+    IF mk \in {"matrix", "funadj"} THEN MV(A, x)
+    ELSE IF mk = "geomgrad" THEN MV(A, VMulE(x, x)) ELSE VAdd(MV(A, VMulE(x, x)), MV(B, x))
+ModelJ(mk, A, B, x) ==
+    IF mk \in {"matrix", "funadj"} THEN A
+    ELSE LET J2 == F([i \in 1..Len(A) |-> [j \in 1..Len(x) |-> RMul(R(2), RMul(A[i][j], x[j]))]])
+         IN IF mk = "geomgrad" THEN J2 ELSE MAdd(J2, B)
+\* Gaussian data distribution  y ~ N(F(x), diag(lam^2)^-1):  log-likelihood and its gradient w.r.t. x
+NoiseCanon(lam) == <<MDiag(F([i \in 1..Len(lam) |-> RSq(lam[i])])),
+                     SLScale(R(-2), SLSum([i \in 1..Len(lam) |-> SLLog(lam[i])])), Len(lam)>>
+LogLik(mk, A, B, lam, y, x)  == GaussLogpdf(ModelF(mk, A, B, x), NoiseCanon(lam), y)
+GradLik(mk, A, B, lam, y, x) ==
+    MV(MT(ModelJ(mk, A, B, x)), MV(NoiseCanon(lam)[1], VSub(y, ModelF(mk, A, B, x))))
+
+LikConfigs(fam) ==
+    UNION {{ Cfg(fam, na[1], na[2], b, g, x, o) : b \in PI(LLam, Len(LA(na[1], na[2]))), g \in (IF na[1] = 1 THEN {1, 3} ELSE 1..3),
+                                                   x \in PI(LInt, na[1]), o \in 1..5 }
+           : na \in {<<n, a>> \in Dims \X (1..2) : a <= NLA(n)}}
+
+PriorParts(k, x) ==      \* g = 1: Gaussian(mean, cov = 4);  2: GMRF(mean, 1, zero, order 1);  3: no prior
+    LET n == k.dim  m == Pat(LLoc, n, IF n = 1 THEN 2 ELSE Len(LLoc) + 1)
+    IN CASE k.g = 1 -> LET cn == <<MDiag([i \in 1..n |-> Q(1, 4)]), SLScale(R(n), SLLog(R(4))), n>>
+                       IN [kind |-> "Gaussian", mean |-> m, logpdf |-> GaussLogpdf(m, cn, x), grad |-> GaussGrad(m, cn, x)]
+         [] k.g = 2 -> LET Di == MrfD(1, n, "zero", 1, 1)  P == MR(DO!IMM(DO!IT(Di), Di))  pdet == PDet(P, n)
+                       IN [kind |-> "GMRF", mean |-> m, logpdf |-> GmrfLogpdf(P, n, pdet, One, m, x),
+                           grad |-> GmrfGrad(P, One, m, x)]
+         [] OTHER -> [kind |-> "none", mean |-> m, logpdf |-> SLZero, grad |-> VZero(n)]
+
+LikCase(k) ==
+    LET n == k.dim  A == MR(LA(n, k.a))  B == MR(LB(LA(n, k.a)))  mk == MKinds[k.o]
+        m == Len(A)
+        lam == Pat(LLam, m, k.b)
+        y == IF k.fam = "LikLognormal" THEN VZero(m) ELSE Pat(LInt, m, IF m = 1 THEN 2 ELSE Len(LInt) + 1)
+        x == Pat(LInt, n, k.x)
+        pr == PriorParts(k, x)
+        ll == LogLik(mk, A, B, lam, y, x)
+        gl == GradLik(mk, A, B, lam, y, x)
+        \* second likelihood of the multiple-likelihood posterior: jacobian model, unit noise, data y2
+        y2 == Pat(LInt, m, 2)
+        lam2 == [i \in 1..m |-> One]
+    IN [kind |-> "lik", fam |-> k.fam, dim |-> n, A |-> LA(n, k.a), B |-> LB(LA(n, k.a)), mk |-> mk, lam |-> lam,
+        lamscal |-> IsConstV(lam), logy |-> y, x |-> x, prior |-> pr,
+        loglik |-> ll, gradlik |-> gl,
+        logpost |-> SLAdd(ll, pr.logpdf), gradpost |-> VAdd(gl, pr.grad),
+        y2 |-> y2, loglik2 |-> LogLik("jacobian", A, B, lam2, y2, x), gradlik2 |-> GradLik("jacobian", A, B, lam2, y2, x),
+        cfg |-> k]
+
+FamConfigs(fam) ==
+    CASE fam = "Normal" -> UNION {{ Cfg(fam, d, a, b, 1, x, 0) : a \in PI(LLoc, d), b \in PI(LStd, d), x \in PI(LOff, d) } : d \in Dims}
+      [] fam = "Laplace" -> UNION {{ Cfg(fam, d, a, b, 1, x, 0) : a \in PI(LLoc, d), b \in 1..(NB + 1), x \in PI(LOff, d) } : d \in Dims}
+      [] fam = "SmoothedLaplace" -> UNION {{ Cfg(fam, d, a, b, g, x, 0) : a \in PI(LLoc, d), b \in PI(LStd, d), g \in 1..2, x \in PI(LSL1, d) } : d \in Dims}
+      [] fam = "Cauchy" -> UNION {{ Cfg(fam, d, a, b, 1, x, 0) : a \in PI(LLoc, d), b \in PI(LStd, d),
+                                     x \in PatIdx(LCauU, d, IF Thorough THEN 6 ELSE 3) } : d \in Dims}
+      [] fam = "Gamma" -> UNION {{ Cfg(fam, d, a, b, 1, x, o) : a \in PI(LShape, d), b \in PI(LRate, d), x \in PI(LPosX, d), o \in 0..1 } : d \in Dims}
+      [] fam = "InverseGamma" -> UNION {{ Cfg(fam, d, a, b, g, x, o) : a \in PI(LShape, d), b \in PI(LLoc, d), g \in PI(LRate, d),
+                                           x \in PI(LPosX, d), o \in 0..1 } : d \in Dims}
+      [] fam = "Beta" -> UNION {{ Cfg(fam, d, a, b, 1, x, o) : a \in PI(LShape, d), b \in PI(LShape, d), x \in PI(LUnit, d), o \in 0..2 } : d \in Dims}
+      [] fam = "Uniform" -> UNION {{ Cfg(fam, d, a, b, 1, x, o) : a \in PI(LLoc, d), b \in PI(LStd, d), x \in PI(LUnit, d), o \in 0..2 } : d \in Dims}
+      [] fam = "ModifiedHalfNormal" -> { Cfg(fam, 1, a, b, g, x, o) : a \in 1..3, b \in 1..3, g \in 1..4, x \in 1..3, o \in 0..1 }
+      [] fam = "Lognormal" -> UNION {{ Cfg(fam, d, a, b, g, x, o) : a \in PI(LMu, d), b \in 1..NUT(d), g \in PI(LLam, d), x \in PI(LK, d), o \in 0..1 } : d \in Dims}
+      [] fam = "Gaussian" -> UNION {{ Cfg(fam, d, a, b, g, x, 0) : a \in PI(LLoc, d), b \in 1..NUT(d), g \in PI(LLam, d), x \in PI(LOff, d) } : d \in Dims}
+      [] fam = "GaussianBig" -> { Cfg(fam, d, a, 1, g, x, 0) : d \in {75, 76}, a \in {2, 4}, g \in {2, 4}, x \in {1, 5} }
+      [] fam \in {"Lik", "LikLognormal"} -> LikConfigs(fam)
+      [] OTHER -> UNION {{ CfgM(fam, pd, n, a, b, x, bc, ord, wm) :
+                             a \in PI(LLoc, MrfDim(pd, n)), b \in 1..NB, x \in PI(LInt, MrfDim(pd, n)),
+                             bc \in {"zero", "periodic", "neumann"}, ord \in (IF fam = "GMRF" THEN 0..2 ELSE {1}), wm \in {1, 2} }
+                         : pd \in {1, 2}, n \in 2..(IF Thorough THEN 5 ELSE 4)}
+Configs == UNION {FamConfigs(f) : f \in Fams}
+
 \* can every logarithm of the configuration be represented?  (others are not configurations)
 HasLogs(k) ==
     CASE k.fam = "GMRF" -> LET mp == MrfParts(k) IN SLHasLog(PDet(mp.P, mp.rank))
@@ -516,6 +584,7 @@ CaseOf(k) ==
       [] k.fam = "Beta" -> CaseBeta(k) [] k.fam = "Uniform" -> CaseUniform(k)
       [] k.fam = "ModifiedHalfNormal" -> CaseMHN(k) [] k.fam = "Lognormal" -> CaseLognormal(k)
       [] k.fam = "Gaussian" -> GaussCase(k) [] k.fam = "GaussianBig" -> BigCase(k)
+      [] k.fam \in {"Lik", "LikLognormal"} -> LikCase(k)
       [] OTHER -> MrfCase(k)
 
 \* ---------------------------------------------------------------------------
@@ -543,6 +612,11 @@ QuadIdentity ==
               IN SLSub(GmrfLogpdf(mp.P, mp.rank, pdet, delta, loc, VAdd(x, h)),
                        GmrfLogpdf(mp.P, mp.rank, pdet, delta, loc, VSub(x, h)))
                    = SLConst(RMul(two, Dot(h, GmrfGrad(mp.P, delta, loc, x))))
+         [] c.fam \in {"Lik", "LikLognormal"} /\ MKinds[c.o] \in {"matrix", "funadj"} ->
+              LET n == c.dim  A == MR(LA(n, c.a))  B == MR(LB(LA(n, c.a)))  mk == MKinds[c.o]
+                  lam == Pat(LLam, Len(A), c.b)  y == Pat(LInt, Len(A), 2)  x == Pat(LInt, n, c.x)  hh == HVec(n)
+              IN SLSub(LogLik(mk, A, B, lam, y, VAdd(x, hh)), LogLik(mk, A, B, lam, y, VSub(x, hh)))
+                   = SLConst(RMul(two, Dot(hh, GradLik(mk, A, B, lam, y, x))))
          [] OTHER -> TRUE
 
 \* logpdf - kernel does not depend on the evaluation point (Gaussian: kernel = -1/2 Mahalanobis distance;
@@ -560,7 +634,7 @@ Unnormalised ==
 
 \* support and gradient domain coincide; the density is -inf exactly outside the support
 NaNOutside ==
-    c.fam \notin {"GaussianBig"} =>
+    c.fam \notin {"GaussianBig", "Lik", "LikLognormal"} =>
       LET cs == CaseOf(c)
       IN /\ cs.grad.nan = ~cs.inside
          /\ cs.logpdf.neginf = ~cs.inside
